@@ -135,6 +135,8 @@ def check_pair(case, sub="pairs"):
         raise Violation(sub, "fidelity-value", "fidelity", "equal", "F(rho,rho) = %r" % fe)
     t1 = guarded(sub, icls, dmf.trace_distance, rho, sigma)
     t2 = guarded(sub, icls, dmf.trace_distance, sigma, rho)
+    if not (np.array_equal(rho, r0) and np.array_equal(sigma, s0)):
+        raise Violation(sub, "argument-mutated", "trace_distance", icls, "inputs changed")
     if abs(t1 - T) > TOL or abs(t1 - t2) > TOL or t1 > 1 + TOL or t1 < -TOL:
         raise Violation(sub, "trace-distance", "trace_distance", icls, "%r / %r, reference %r" % (t1, t2, T))
     t0 = guarded(sub, icls, dmf.trace_distance, rho, rho.copy())
